@@ -199,13 +199,14 @@ class Sim:
         rng = self.rng
         kind = kind if kind is not None else rng.below(7)
         self.count("ctor", str(kind))
+        al = "a" if rng.chance(1, 4) else ""
         if kind == 0:
             self.sz[r] = self.cap[r] = 0
-            return f"ctor {r} default"
+            return f"ctor {r} {al}default"
         if kind == 1:
             n = rng.choice([0, 1, 2, 3, 5, 8])
             self.sz[r] = self.cap[r] = n
-            return f"ctor {r} count {n} {self.val()}"
+            return f"ctor {r} {al}count {n} {self.val()}"
         if kind in (2, 3):
             n = rng.choice([0, 1, 2, 3, 4, 7])
             f = rng.choice(["fwd", "fwd", "ptr", "fl", "bidi"]) if kind == 2 else "inp"
@@ -218,11 +219,11 @@ class Sim:
                     if i > c:
                         c = max(i, 2 * c)
                 self.cap[r] = c
-            return f"ctor {r} range {f} {self.lst(self.vals(n))}"
+            return f"ctor {r} {al}range {f} {self.lst(self.vals(n))}"
         if kind == 4:
             n = rng.choice([0, 1, 2, 3, 4, 5, 6])
             self.sz[r] = self.cap[r] = n
-            return f"ctor {r} il {self.lst(self.vals(n))}"
+            return f"ctor {r} {al}il {self.lst(self.vals(n))}"
         if kind == 5:
             s = (r + 1 + rng.below(NV - 1)) % NV
             self.sz[r], self.cap[r] = self.sz[s], self.cap[s]
@@ -249,7 +250,7 @@ class Sim:
             n = rng.choice([0, 1, 2, 4, 7])
             self.brd[b], self.bws[b], self.bcap[b] = 0, n, n
             self.count("bctor", "x")
-            return f"bctor {b} {n}"
+            return f"b{'a' if rng.chance(1, 4) else ''}ctor {b} {n}"
         if k < 30:
             n = rng.choice([0, 1, 2, 3, 5, 9, self.bws[b]])
             self.bresize_sim(b, n)
@@ -326,6 +327,7 @@ def histories(rng, count, length, stats, buffer_share):
             o = sim.bop() if rng.chance(buffer_share, 100) else sim.vop()
             if o:
                 ops.append(o)
+        ops.append("dump")
         ops.append("end")
     ops.append("reset")
     return ops
@@ -351,6 +353,7 @@ def buffer_histories(rng, count, length, stats):
             o = sim.vop() if rng.chance(3, 4) else sim.bop()
             if o:
                 ops.append(o)
+        ops.append("dump")
         ops.append("end")
     ops.append("reset")
     return ops
@@ -394,6 +397,8 @@ def single_cases(n, r=0, full=True):
     for a in range(n + 1):
         for b in range(a, n + 1):
             cases.append(f"erar {r} {a} {b}")
+    cases += [f"ctor {r} adefault", f"ctor {r} acount 2 5", f"ctor {r} arange inp 5,6", f"ctor {r} arange fl 5,6", f"ctor {r} ail 5,6,7",
+              f"ctor {r} ail -", f"ctor {r} default", f"ctor {r} count 0 5", f"ctor {r} range bidi -"]
     cases += [f"pop {r}", f"clear {r}", f"shrink {r}", f"reserve {r} {n + 5}", f"reserve {r} {n}", f"reserve {r} 0",
               f"ctor {o} move {r}", f"swap {r} {o}", f"swap {o} {r}", f"massign {o} {r}", f"massign {r} {o}",
               f"swap {r} {r}", f"massign {r} {r}", f"cmp {r} {r}", f"cmp {r} {o}"]
@@ -542,6 +547,12 @@ def cmp_states(alphabet, maxlen):
             for wa in range(3):
                 for wb in range(3):
                     ops += ["reset"] + build(0, a, wa) + build(1, b, wb) + ["cmp 0 1", "cmp 1 0", "cmp 0 0"]
+    # extreme values (a comparison by subtraction or through an unsigned type goes wrong only here)
+    ext = [-2147483648, -1, 0, 1, 2147483647]
+    eseqs = [[]] + [[x] for x in ext] + [[x, y] for x in (ext[0], ext[2], ext[4]) for y in (ext[0], ext[4])]
+    for a in eseqs:
+        for b in eseqs:
+            ops += ["reset"] + build(0, a, 0) + build(1, b, 0) + ["cmp 0 1"]
     ops.append("reset")
     return ops
 
@@ -560,6 +571,9 @@ def readchars_ops():
     for ln in range(0, 7):
         xs = ",".join(str(97 + i) for i in range(ln)) if ln else "-"
         for count in range(0, 9):
+            ops.append(f"readchars {count} {xs}")
+    for xs in ("0,255,128", "10,13,0,0", "255"):
+        for count in range(0, 5):
             ops.append(f"readchars {count} {xs}")
     ops.append("readchars 300 " + ",".join(str(32 + i % 90) for i in range(300)))
     ops.append("readchars 301 " + ",".join(str(32 + i % 90) for i in range(300)))
